@@ -1,19 +1,35 @@
 package main
 
-// allSpecs is the exhaustive list of kernels regenerated on every run.
+// Spec registry.  Each component file (specs_<component>.go) registers its
+// kernels from an init function; allSpecs returns them in a stable order.
+var registry = map[string][]Spec{}
+
+func register(component string, specs []Spec) { registry[component] = specs }
+
 func allSpecs() []Spec {
+	names := []string{}
+	for k := range registry {
+		names = append(names, k)
+	}
+	sortStrings(names)
 	specs := []Spec{}
-	specs = append(specs, sketchSpecs()...)
+	for _, n := range names {
+		specs = append(specs, registry[n]...)
+	}
 	for _, s := range specs {
-		if s.Kind == KFunc {
-			name := s.Func
-			if i := lastDot(name); i >= 0 {
-				continue // methods are not callable from other kernels
-			}
-			funcLeanNames[name] = "Gen." + s.Out + "." + s.Lean
+		if s.Kind == KFunc && lastDot(s.Func) < 0 {
+			funcLeanNames[s.Func] = "Gen." + s.Out + "." + s.Lean
 		}
 	}
 	return specs
+}
+
+func sortStrings(a []string) {
+	for i := 1; i < len(a); i++ {
+		for j := i; j > 0 && a[j] < a[j-1]; j-- {
+			a[j], a[j-1] = a[j-1], a[j]
+		}
+	}
 }
 
 func lastDot(s string) int {
@@ -23,22 +39,4 @@ func lastDot(s string) int {
 		}
 	}
 	return -1
-}
-
-func sketchSpecs() []Spec {
-	o := "Sketch"
-	return []Spec{
-		{Kind: KConst, Match: "cmDepth", Lean: "cmDepth", Out: o},
-		{Kind: KFunc, Func: "cmRow.get", Lean: "rowGet", Out: o},
-		{Kind: KFunc, Func: "cmRow.increment", Lean: "rowIncrement", Out: o},
-		{Kind: KFunc, Func: "cmRow.reset", Lean: "rowReset", Out: o},
-		{Kind: KFunc, Func: "cmRow.clear", Lean: "rowClear", Out: o},
-		{Kind: KFunc, Func: "next2Power", Lean: "next2Power", Out: o},
-		{Kind: KExpr, Func: "cmSketch.Increment", Match: "(hashed ^ s.seed[i]) & s.mask", Lean: "incrIndex", Out: o},
-		{Kind: KExpr, Func: "cmSketch.Estimate", Match: "(hashed ^ s.seed[i]) & s.mask", Lean: "estIndex", Out: o},
-		{Kind: KExpr, Func: "cmSketch.Estimate", Match: "val < min", Lean: "estLess", Out: o},
-		{Kind: KExpr, Func: "cmSketch.Estimate", Match: "byte(255)", Lean: "estInit", Out: o},
-		{Kind: KExpr, Func: "newCmSketch", Match: "uint64(numCounters - 1)", Lean: "sketchMask", Out: o},
-		{Kind: KExpr, Func: "newCmRow", Match: "numCounters / 2", Lean: "rowLen", Out: o},
-	}
 }
